@@ -109,9 +109,9 @@ CHECKS = {
    note="that the multiplied segments form a pre-terminal the guesser emits (same tables, same segmentation) rests on the stated bound; detectors trusted as in C05"),
  'C20': dict(level='other', technique=TECH + " with the regex engine abstracted to uninterpreted functions; file-system frame decided on the AST; real CLI as bounded stand-in",
    text="edit_length, edit_terminal_set, check_regex (all grammars and parameters): the result is exactly the concatenation, in order, of the lines passing the declarative filter "
-        "(A/D/O/K/X count their number, Y counts 4, total 0 kept, max 0 unbounded; every label letter in the set; every regex matches the structure). All paths: the only statements of edit_rules.py that change the file system are open(<rules_dir>/<rule>/Grammar/grammar.txt, 'w') and shutil.copytree(source, copy). "
+        "(A/D/O/K count their number, Y counts 4, X between the given context lengths; nothing generated = kept; shortest >= min and longest <= max, 0 unbounded; every label letter in the set; every regex matches the structure). All paths: the only statements of edit_rules.py that change the file system are open(<rules_dir>/<rule>/Grammar/grammar.txt, 'w') and shutil.copytree(source, copy). "
         "Bounded: grammar.txt after editing == original minus the structures failing the requested filters, survivors unchanged and in order, other files byte-identical, --copy leaves the source "
-        "untouched, guesses of the edited ruleset within the length bounds. Known finding F12 (context-sensitive segments counted as one character).",
+        "untouched, guesses of the edited ruleset within the length bounds (context-sensitive segments: defect F12, repaired).",
    note="re.findall/re.search/split/strip/int() uninterpreted (A-TOK validated only by the stand-in); edit_rules() orchestration not under a functional contract"),
 }
 NOT_APPLICABLE = {}
